@@ -620,6 +620,10 @@ def check(facts, rep, tier, cfg):
             c = callee(t)
             if not c or "StreamCommand" not in c["path"] or "mpsc" not in c["def"]:
                 continue
+            if c["name"] in ("recv_many", "poll_recv_many", "blocking_recv_many"):
+                rep.bad("C19.R10", "requests-dequeued-one-at-a-time/%s" % b.path.split("::{")[0], "%s (%s)" % (loc_str(t["loc"]), b.path),
+                        "stream requests are taken off the request channel in batches (`%s`): there is one parking slot, so when the connection "
+                        "fails while a batch is being served the requests behind the failing one are dropped with it" % c["name"])
             if c["name"] in ("reserve", "send", "reserve_owned", "try_reserve", "try_send", "try_reserve_owned"):
                 k10 += 1
                 where = "%s (%s)" % (loc_str(t["loc"]), b.path)
